@@ -204,7 +204,12 @@ def r15_3(ctx):
     for n in walk_local(ec.node):
         if isinstance(n, ast.Assign) and isinstance(n.value, ast.Call) and norm(n.value.func) == "self._render_buffer":
             rv = norm(n.targets[0])
-    ctx.check(bool(rets) and all(r.value is not None and norm(r.value) == rv for r in rets), ec.fq, "return render_result", ec.where, "returns exactly the rendered capture", "end_capture does not return the string rendered from the captured buffer")
+    same = {rv}
+    for _i in range(3):
+        for n in walk_local(ec.node):
+            if isinstance(n, ast.Assign) and isinstance(n.value, ast.Name) and n.value.id in same:
+                same.add(norm(n.targets[0]))
+    ctx.check(bool(rets) and all(r.value is not None and norm(r.value) in same for r in rets), ec.fq, "return render_result", ec.where, "returns exactly the rendered capture", "end_capture does not return the string rendered from the captured buffer")
     ce = ctx.repo.fn("console:Capture.__exit__")
     g2 = cfgmod.build(ce.node)
     st = {n.id for n in g2.stmt_nodes() if n.kind == "stmt" and isinstance(n.stmt, ast.Assign) and norm(n.stmt.targets[0]) == "self._result" and "end_capture()" in norm(n.stmt.value)}
